@@ -1,14 +1,14 @@
 SPECIFICATION Spec
 CONSTANTS
-  MM <- MM5
+  MM <- EnvMM
   Dev <- EnvDev
-  MaxN = 6
-  MaxNamed = 6
-  MaxUnnamed = 0
-  MaxRefs = 2
-  Names <- NoNames
-  Sorted = FALSE
-  FullN = 4
+  MaxN <- EnvMaxN
+  MaxNamed <- EnvMaxNamed
+  MaxUnnamed <- EnvMaxUn
+  MaxRefs <- EnvMaxRefs
+  Names <- EnvNames
+  Sorted <- EnvSorted
+  FullN <- EnvFullN
   Builtins <- NoBuiltins
 INVARIANT TWellFormed
 INVARIANT TParentChain
